@@ -70,7 +70,7 @@ PROPS["C18"] = {
 }
 
 PROPS["C15"] = {
-    "modules": ["TaffyVerif.Props.C15", "TaffyVerif.Props.C15Pass", "TaffyVerif.Props.C02", "TaffyVerif.Props.C15Eval"],
+    "modules": ["TaffyVerif.Props.C15", "TaffyVerif.Props.C15Pass", "TaffyVerif.Props.C15Link", "TaffyVerif.Props.C02", "TaffyVerif.Props.C15Eval"],
     "theorems": [
         "C15.facts", "Dirty.markDirty_spec", "C15.step_preserves_K", "C15.K_reachable", "C15.I_reachable",
         "C15.mutation_dirties_exactly", "C15.ancestors_dirty", "C15.already_dirty_noop",
@@ -86,6 +86,10 @@ PROPS["C15"] = {
         "C15Eval.hidden_root_second_pass_rat", "C15Eval.driver_layoutRoot_eq", "C15Eval.exG_first_pass_counts",
         "C15Eval.realCache_get_store", "C15Eval.eval_hit", "C15Eval.eval_then_get", "C15Eval.eval_twice",
         "C15Eval.computeRootLayout_twice", "C15Eval.computeLayoutWithMeasure_twice",
+        # flat <-> rose-tree link (Props/C15Link.lean)
+        "Dirty.step_preserves_Struct", "C15Link.struct_reachable", "C15Link.subtree_finite", "C15Link.subtree_is_rose_tree",
+        "C15Link.KT_unfold", "C15Link.pass_cleans_flat", "C15Link.pass_cleans_of_inv", "C15Link.passFlat_preserves",
+        "C15Link.reach_inv", "DirtyPass.pass_skel", "C15Link.passFlat_exists", "C15Link.pass_total", "C15Link.reach_pass",
     ],
     "harness": "C15", "driver": "C15", "monitor": False, "extra_ties": [("EVAL", "EVAL")], "extra_tie_cases": 4000,
     "rule": "random histories (4–33 ops) of every TaffyTree mutator (new_leaf[_with_context], set_style incl. display:none "
@@ -98,8 +102,10 @@ PROPS["C15"] = {
         "(Generated/Facts.lean, my syn-based extractor); theorem C15.facts pins the values the proofs rely on",
         "flat model Model/Dirty.lean (mutators) and rose-tree model Model/DirtyPass.lean (passes, all hit/miss and "
         "child-visit decisions universally quantified) are hand-written; the flat model is tied to TaffyTree by comparing every "
-        "node's dirty flag after every operation; the link flat ↔ rose tree (a root's subtree is a tree) is not proved here "
-        "(forest shape is C14's subject)",
+        "node's dirty flag after every operation; the link flat ↔ rose tree is proved in Props/C15Link.lean: under the structural invariant Dirty.Struct "
+        "(preserved by every mutator under the property's precondition) the subtree of a parentless node is a finite rose tree, "
+        "K gives KT on it, a pass can be written back (PassFlat exists) and preserves K and Struct, so pass_cleans applies after "
+        "every history of mutators interleaved with passes (C15Link.reach_inv)",
         "modelled assumption about the three container algorithms: a PerformLayout-mode evaluation performs a PerformLayout "
         "query on every child, and display:none children are never measured (validated by the implementation-side oracle "
         "`every node reachable without crossing display:none is clean after a pass`)",
@@ -178,7 +184,7 @@ PROPS["C13"] = {
 }
 
 PROPS["C14"] = {
-    "modules": ["TaffyVerif.Props.C14"],
+    "modules": ["TaffyVerif.Props.C14", "TaffyVerif.Props.C14Sim"],
     "theorems": [
         "C14.step_inv", "C14.inv_runH", "C14.no_panic", "C14.lock_step", "C14.parent_agrees", "C14.occurs_once",
         "C14.insert_position", "C14.add_child_position", "C14.observers_agree", "C14.total_node_count_eq_live",
@@ -187,6 +193,13 @@ PROPS["C14"] = {
         "SlotMapModel.insert_spec", "SlotMapModel.remove_spec", "SlotMapModel.clear_spec", "SlotMapModel.insert_lockstep",
         "SlotMapModel.WF.len_eq", "TreeModel.err_unchanged", "TreeModel.setChildren_ok", "TreeModel.remove_ok",
         "Fresh.step_verStep", "Fresh.seen",
+        # one simulation theorem to the forest spec (Props/C14Sim.lean)
+        "C14Sim.sim_iff_equiv_abs", "C14Sim.specPre_iff_pre", "C14Sim.step_sim", "C14Sim.step_simulates",
+        "C14Sim.step_simulates_abs", "C14Sim.spec_err_unchanged", "C14Sim.history_simulates", "C14Sim.specValid_iff_valid",
+        "C14Sim.history_answers", "C14Sim.history_observers", "C14Sim.history_wf", "C14Sim.attached_exactly_once",
+        "C14Sim.insert_position", "C14Sim.add_child_position", "C14Sim.set_children_installs", "C14Sim.remove_effect",
+        "C14Sim.removed_id_never_reissued", "C14Sim.replace_child_position", "C14Sim.new_with_children_installs",
+        "C14Sim.specValid_of_short", "C14Sim.history_simulates_short", "C14Cap.step_lenStep", "C14Cap.slots_le_length",
     ],
     "harness": "C14", "driver": "C14", "monitor": True,
     "rule": "random edit histories (4-40 ops) on the real TaffyTree<u32> over a pool of <= 12 live nodes; every op is followed by a "
@@ -196,7 +209,7 @@ PROPS["C14"] = {
             "clear is included. Streams: main (precondition-respecting; also monitored against the reference spec and checked by an "
             "implementation-side consistency oracle), malformed (double attachment, duplicates in set_children/new_with_children, "
             "dead ids, non-children: the model must predict the exact state or the panic), badrange (ends with an out-of-range "
-            "remove_children_range: both sides must panic; known C03 finding). Non-trivial = at least 3 edits; distinct = distinct "
+            "remove_children_range: both sides must panic; known C03 finding), torn (fixed cases that go on after a panic: the model's torn state is compared with the real tree's). Non-trivial = at least 3 edits; distinct = distinct "
             "transcripts.",
     "trusted_base": [
         "models of slotmap 1.1.x (basic.rs SlotMap insert/remove/get/clear, secondary.rs insert/remove/get) and of the structural "
@@ -225,9 +238,12 @@ PROPS["C14"] = {
                   "reference forest abs(t) answers. The model is tied to the code by exact comparison on "
                   "generated histories including malformed ones.",
     "level_note": "Trusted: Lean kernel; hand-written models of slotmap and of taffy_tree.rs (validated by the correspondence run, ids "
-                  "and dumps compared exactly). Not proved: acyclicity (false under the stated precondition, witness proved); the "
-                  "step-by-step simulation abs(step t op) = specStep(abs t, op) is not a single theorem (per-operation effect theorems + "
-                  "observer refinement are; the spec itself is replayed against the implementation by the monitor). "
+                  "and dumps compared exactly). Not proved: acyclicity (false under the stated precondition, witness proved). "
+                  "Simulation to the reference forest (Props/C14Sim): C14Sim.step_simulates (all 19 ops: invariant, no panic, "
+                  "abs(step t op) = specStep(abs t, op) up to the order of the live list, equal answers, index errors leave both "
+                  "states unchanged, created id not live in the spec) and C14Sim.history_simulates / history_observers (induction "
+                  "over any history; the spec-side precondition specPre is proved equivalent to C14.Pre). get_node_context's "
+                  "answer is outside the structural spec (contexts are not modelled in Forest). "
                   "Axioms: propext, Classical.choice, Quot.sound.",
     "technique": "Lean 4 invariant proof by induction over operation histories on a line-by-line model of slotmap + TaffyTree, "
                  "differential correspondence with the real TaffyTree, reference-spec monitor",
@@ -1148,8 +1164,23 @@ TIE_STYLE = ["TieStyle." + t for t in (
     "grid_justify_self_eq").split()]
 TIE_COMPUTE = ["TieCompute." + t for t in (
     "round_content_size_eq round_layout_inner_node_eq roundInner_unfold round_layout_start_eq "
-    "hidden_node_layout_eq hidden_child_input_eq hidden_output_eq").split()]
-TIE_TRUSTED = ("tier T: Generated/{Cache,AvailableSpace,LayoutTypes,Geometry,Sys,MaybeMath,Resolve,GridCoords,Alignment,ContentSize,Axes,GridAxes,Style,Compute}.lean are translated from the Rust "
+    "hidden_node_layout_eq hidden_child_input_eq hidden_output_eq "
+    # compute_cached_layout (interaction form, Generated/Root.lean)
+    "compute_cached_layout_eq compute_cached_layout_run evalNodeWith_is_compute_cached_layout").split()]
+# third batch: functions that call closures / the tree, translated in interaction form (extract/src/{treemod,leafmod,rootmod}.rs;
+# fragment widened by: closure parameters (pure `Fn` ↦ Lean function, opaque ↦ a node of the generated program type, tree-taking ↦
+# sub-program), `&impl CoreStyle`, `tree: &mut impl LayoutPartialTree` (trait methods ↦ nodes, read off tree/traits.rs), struct
+# patterns, `if let`, `matches!` with a guard, `+=`, operator impls of geometry.rs, type-variable unification at call sites,
+# `unreachable!()` in an argument ↦ `Prog.unreachable`): compute/leaf.rs in full, compute_root_layout, compute_cached_layout,
+# LayoutPartialTreeExt::perform_child_layout
+TIE_LEAF = ["TieLeaf." + t for t in (
+    "rect_add_eq size_add_eq size_map_eq size_zip_map_eq point_map_eq from_f32_eq from_option_eq map_definite_value_eq "
+    "fo_max_map_some point_NONE_eq compute_leaf_layout_prog_eq run_modelProg compute_leaf_layout_eq leafAlg_eq").split()]
+TIE_LAYOUT_TREE = ["TieLayoutTree." + t for t in (
+    "run_bind perform_child_layout_eq perform_child_layout_ProgM").split()]
+TIE_ROOT = ["TieRoot." + t for t in (
+    "size_into_options_eq compute_root_layout_eq compute_root_layout_run layoutSingleLeafWith_eq").split()]
+TIE_TRUSTED = ("tier T: Generated/{Cache,AvailableSpace,LayoutTypes,Geometry,Sys,MaybeMath,Resolve,GridCoords,Alignment,ContentSize,Axes,GridAxes,Style,Compute,Leaf,Tree,Root}.lean are translated from the Rust "
                "source on every run (verif/extract, typed syn-based translator, my code); Props/Tie*.lean prove each generated "
                "definition equal to the hand-written model definition for every [Num α]; style lengths are translated against the "
                "abstract LP/LPA inductives (tag ↦ constructor, justified by C18) with the calc arm dropped; grid integer code is translated "
@@ -1157,7 +1188,10 @@ TIE_TRUSTED = ("tier T: Generated/{Cache,AvailableSpace,LayoutTypes,Geometry,Sys
                "length constructors are translated to the abstract constructors after CompactLength::{length,percent,auto,ZERO,AUTO} have been "
                "compared with the source; the one usize subtraction of compute_alignment_offset is translated as truncated subtraction "
                "(TieAlignment.fallback_spaceBetween_two_items: unreachable underflow); round_layout / compute_hidden_layout: the tree walk is "
-               "compared token by token, the per-node block / the three constants are translated")
+               "compared token by token, the per-node block / the three constants are translated; compute_leaf_layout, compute_root_layout, "
+               "compute_cached_layout and perform_child_layout are translated in interaction form (calls of the measure closure / of the tree's trait "
+               "methods become nodes of a generated program type, in the Rust order; the measure function is modelled as a pure function, "
+               "the calc resolver is dropped, the debug_log! macros are checked to be cfg-gated no-ops)")
 
 
 def _add_tie(pid, module, theorems):
@@ -1195,8 +1229,64 @@ for _pid in ("C17", "C05"):
 for _pid in ("C19", "C10", "C11", "C12", "C04", "C07", "C05", "C17"):
     _add_tie(_pid, "TaffyVerif.Props.TieStyle", TIE_STYLE)
 # the per-node rounding block (C13) and compute_hidden_layout's constants (C05, C17)
-for _pid in ("C13", "C05", "C17"):
+for _pid in ("C13", "C05", "C17", "C01"):
     _add_tie(_pid, "TaffyVerif.Props.TieCompute", TIE_COMPUTE)
+# compute_leaf_layout in full (the model C19's theorems are about; the evaluator's leaf algorithm), compute_root_layout, the tree traits
+for _pid in ("C19", "C17", "C01", "C05"):
+    _add_tie(_pid, "TaffyVerif.Props.TieLeaf", TIE_LEAF)
+    _add_tie(_pid, "TaffyVerif.Props.TieLayoutTree", TIE_LAYOUT_TREE)
+    _add_tie(_pid, "TaffyVerif.Props.TieRoot", TIE_ROOT)
+
+# Tier T for TaffyTree's structural methods (src/tree/taffy_tree.rs): every statement of every structural method is translated from
+# the source on every run (extract/src/treeops.rs -> Generated/TreeOps.lean, programs of the monad Model/TreeInterp.lean);
+# Props/TieTree.lean proves each translated method equal to the hand-written model function of Model/Tree.lean on EVERY state and
+# argument (panics and index errors included), hence the whole `step` and every history; the mark_dirty table of Generated/Facts.lean
+# is built from the same walk (dirty_table_consistent).
+TIE_TREE = ["TieTree." + t for t in (
+    "step_eq runH_eq generated_inv_no_panic dirty_table_consistent NodeData_new_eq with_capacity_eq new_eq new_leaf_eq "
+    "new_leaf_with_context_eq new_with_children_eq clear_eq remove_eq set_node_context_eq get_node_context_eq add_child_eq "
+    "insert_child_at_index_eq set_children_eq remove_child_eq remove_child_at_index_eq remove_children_range_eq "
+    "replace_child_at_index_eq child_at_index_eq total_node_count_eq child_count_eq children_eq parent_eq "
+    "forEach_parentsAssign forEach_reparent forEach_push remove_markDirty_site_witness").split()]
+TIE_TREE_TRUSTED = ("tier T (structural methods of TaffyTree): Generated/TreeOps.lean is translated from src/tree/taffy_tree.rs on every run "
+                    "(verif/extract/src/treeops.rs, statement by statement, a closed list of recognised shapes; anything else is an "
+                    "EXTRACT-ERROR); the statement vocabulary (slot-map calls, Vec methods as list functions with their panics, return Err / ? / "
+                    "unwrap) gets its meaning in Model/TreeInterp.lean (hand-written, over Model/SlotMap.lean); Props/TieTree.lean proves every "
+                    "translated method equal to Model/Tree.lean for all states and arguments. Conventions checked or stated by the translator: "
+                    "NodeId<->DefaultKey conversions are the identity; NodeData is has_context only and the Style argument is dropped; "
+                    "self.mark_dirty(n) is its first panic site nodes[n] (the text of mark_dirty is pinned); remove_children_range's generic range "
+                    "is start..end; struct TaffyTree's field types, NodeData::new and TaffyError::ChildIndexOutOfBounds are compared with the model")
+
+
+def _add_tie_tree(pid):
+    c = PROPS[pid]
+    c["modules"] = list(c["modules"]) + ["TaffyVerif.Props.TieTree"]
+    c["theorems"] = list(c["theorems"]) + [t for t in TIE_TREE if t not in c["theorems"]]
+    c["trusted_base"] = list(c.get("trusted_base", [])) + [TIE_TREE_TRUSTED]
+
+
+for _pid in ("C14", "C15", "C01"):
+    _add_tie_tree(_pid)
+
+
+# C03 (finiteness): the models instantiated at the extended numbers ER = fin q | +inf | -inf | nan (Model/ExtNum.lean, IEEE-faithful except
+# that overflow of finite arithmetic and the sign of zero are not modelled): leaf, root driver, block and flex programs and the tree-level
+# evaluator over them keep every number finite (Props/C03Finite.lean, Props/C03FiniteFlex.lean)
+C03_FINITE = ['C03Finite.leaf_finite_partial', 'C03Finite.root_leaf_finite_partial', 'C03Finite.root_leaf_finite_measureSpec_partial', 'C03Finite.root_input_finite_partial', 'C03Finite.sGood_fin', 'C03Finite.leaf_ratio_zero_not_finite', 'C03Finite.leaf_finite_false_for_ratio_zero', 'C03Finite.block_finite_partial', 'C03Finite.block_run_finite_partial', 'C03Finite.block_placeItem_finite_partial', 'C03Finite.block_absItem_finite_partial', 'C03Finite.csGood_fin', 'C03Finite.eval_finite_partial', 'C03Finite.caches_finite', 'C03Finite.eval_finite_algs_partial', 'C03Finite.eval_finite_block_leaf_trees_partial', 'C03Finite.NSFin_at', 'C03Finite.root_pass_finite_block_leaf_trees_partial', 'C03Finite.relayout_finite_block_leaf_trees_partial', 'C03Finite.block_ratio_zero_inf_and_nan', 'C03Finite.tGood_ok', 'C03Finite.flex_finite_partial', 'C03Finite.flex_resolve_flexible_lengths_finite', 'C03Finite.flex_distribute_finite', 'C03Finite.flex_stretch_division_by_zero_dropped', 'C03Finite.sFlex_fin', 'C03Finite.csFlex_fin', 'C03Finite.abs_block_finite_partial', 'C03Finite.abs_flex_finite_partial', 'C03Finite.abs_grid_finite_partial', 'C03Finite.algFin_flex', 'C03Finite.eval_finite_block_flex_leaf_trees_partial', 'C03Finite.root_pass_finite_block_flex_leaf_trees_partial', 'C03Finite.relayout_finite_block_flex_leaf_trees_partial', 'C03Finite.tFlex_ok']
+
+
+def _add_c03_finite():
+    c = PROPS["C03"]
+    c["modules"] = list(c["modules"]) + ["TaffyVerif.Props.C03Finite", "TaffyVerif.Props.C03FiniteFlex"]
+    c["theorems"] = list(c["theorems"]) + [t for t in C03_FINITE if t not in c["theorems"]]
+    c["trusted_base"] = list(c.get("trusted_base", [])) + [
+        "finiteness theorems are about the models at the extended-number instance ER (Model/ExtNum.lean; compared with Float32 on a 9x9 table of "
+        "special values by #guard): division by zero, inf - inf, 0 * inf and the f32::INFINITY sentinels are modelled; overflow and rounding of finite "
+        "f32 arithmetic and the sign of zero are not"]
+
+
+_add_c03_finite()
+
 
 # C03 (totality): the grid program cannot panic (no overflow in the checked integer code, no out-of-range track index, no
 # fuel exhaustion) whenever the decidable precondition gridSafeB holds — proved on Model/Grid.lean (computeGridLayoutE makes
